@@ -58,12 +58,18 @@ pub struct LockStep {
     /// boundaries between commands: whatever a terminal remembers "until the end of the call"
     /// stays remembered)
     pub via_feed: bool,
+    /// keep a twin terminal that gets every multi-command op (`Seq`) in ONE `feed_str` call
+    /// while the compared terminal gets one call per command; after every op the two must
+    /// agree (screen, cursor, dump, hidden state) - so the reference model's verdict on the
+    /// per-command run carries over to the run without call boundaries
+    pub merged: bool,
 }
 
 pub struct LSt {
     pub vt: Vt,
     pub model: RefTerm,
     pub dead: bool,
+    pub twin: Option<Vt>,
 }
 
 fn flatten(cmd: &Cmd, out: &mut Vec<Cmd>) {
@@ -97,6 +103,54 @@ pub fn lock_apply(st: &mut LSt, op: &Op) -> Outcome {
 }
 
 pub fn lock_apply_via(st: &mut LSt, op: &Op, via_feed: bool) -> Outcome {
+    if st.twin.is_none() {
+        return lock_apply_split(st, op, via_feed);
+    }
+    let mut parts = vec![];
+    flatten(&op.cmd, &mut parts);
+    {
+        let tw = st.twin.as_mut().unwrap();
+        if parts.len() > 1 && !parts.iter().any(|p| matches!(p, Resize(..))) {
+            let text: String = parts.iter().map(|p| p.spell(SP7)).collect();
+            let _ = tw.feed_str(&text).scrollback.count();
+        } else {
+            for p in &parts {
+                match p {
+                    Resize(c, r) => {
+                        let _ = tw.resize(*c, *r).scrollback.count();
+                    }
+                    p => {
+                        let text = if parts.len() == 1 { op.text.clone() } else { p.spell(SP7) };
+                        let _ = tw.feed_str(&text).scrollback.count();
+                    }
+                }
+            }
+        }
+    }
+    match lock_apply_split(st, op, via_feed) {
+        Outcome::Ok => {}
+        other => return other,
+    }
+    let tw = st.twin.as_ref().unwrap();
+    let (a, b) = (obs_full(&st.vt), obs_full(tw));
+    if a != b {
+        return Outcome::Mismatch(
+            op.cmd.clone(),
+            format!("delivered in one call: cursor {:?} rows {:?}; one call per command: cursor {:?} rows {:?}", b.cursor, b.rows, a.cursor, a.rows),
+        );
+    }
+    let (da, db) = (st.vt.dump(), tw.dump());
+    if da != db {
+        return Outcome::Mismatch(op.cmd.clone(), format!("delivered in one call: dump {}; one call per command: dump {}", crate::ops::esc(&db), crate::ops::esc(&da)));
+    }
+    let (ha, hb) = (format!("{:?}", st.vt.verif_state()), format!("{:?}", tw.verif_state()));
+    if ha != hb {
+        return Outcome::Mismatch(op.cmd.clone(), format!("delivered in one call: hidden state {}; one call per command: {}", hb, ha));
+    }
+    Outcome::Ok
+}
+
+fn lock_apply_split(st: &mut LSt, op: &Op, via_feed: bool) -> Outcome {
     let mut parts = vec![];
     flatten(&op.cmd, &mut parts);
     let single = parts.len() == 1;
@@ -182,6 +236,11 @@ impl LockStep {
     /// check's property? Hidden components have fixed owners.
     pub fn blame(&self, cmd: &Cmd, what: &str) -> bool {
         let p = self.property;
+        if what.starts_with("delivered in one call") {
+            // the per-command run agreed with the reference terminal; the merged-call twin
+            // is this part's own oracle
+            return true;
+        }
         if what.starts_with("hidden state: pending-wrap flag") {
             return p == "C04" || p == "C02";
         }
@@ -236,7 +295,9 @@ impl System for LockStep {
             vt: build_vt(cfg.cols, cfg.rows, cfg.limit),
             model: RefTerm::new(cfg.cols, cfg.rows),
             dead: false,
+            twin: if self.merged { Some(build_vt(cfg.cols, cfg.rows, cfg.limit)) } else { None },
         };
+        assert!(!(self.merged && self.seed.is_some()), "merged-call twin is not fed the seed");
         match cfg.limit {
             None => {}
             Some(0) => st.model.no_scrollback = true,
